@@ -518,8 +518,10 @@ func (m *c14Model) step(s c14State, ev c14Event, r *core.Rec, path []c14Event, v
 					viol("failed-repair-increased-damage", "Repair failed (%v) and file %d now holds neither its previous content nor its original", err, f)
 				}
 			}
-			if m.lost(fs) > lostBefore {
-				r.Count("failed_repair_lost_more_slices", 1)
+			if la := m.lost(fs); la > lostBefore {
+				// content that was still present somewhere before the call (possibly under another file's name) is gone:
+				// the failed call has made the set harder to repair
+				viol("failed-repair-increased-damage", "Repair failed (%v): %d protected slices / files were unfindable before the call, %d after it", err, lostBefore, la)
 			}
 			r.Nontrivial("failed:" + s.key())
 		}
@@ -634,7 +636,7 @@ func init() {
 		Rule: "explicit-state breadth-first search to closure of the directory-state graph. PAR2 small: 2 files (one slice-aligned, both ending in zero bytes) x 9 contents {original, missing, first byte changed, last byte dropped, one byte prepended, other file's content, empty, garbage byte appended, zero byte appended} x 3 recovery files {present, absent}; PAR2 large: 3 files x 9 contents x 4 recovery files; PAR2 small with a stray file matching the recovery-file pattern (another set's index) listed first / between the recovery files (2 files x 4 contents x 3 recovery files); PAR1: 3 files x 5 contents x 2 volumes; PAR1 at the format's limits: 254 files + volumes .p01/.p02 (full 256-shard space; events on the first and last file, 3 contents) and 3 files with volumes .p01 and .p99 of 99 (the volumes in between never arrived); thorough adds 3 files x 9 contents x 5 recovery files (16 blocks), 4 files x 9 contents x 3 recovery files, and PAR1 4 files x 5 contents x 3 volumes. " +
 			"Plus the Decoder protocol search: EVERY sequence of <=6 (thorough 7) operations {LoadFileData, LoadParityData, both, counts, Repair, Repair+check, delete a, change a, delete b, restore data, delete / restore first recovery file} on ONE exported Decoder object (PAR1, PAR2; in memory via the constructor hook; <=4 (thorough 5) through the exported constructor on a real directory); calls are judged when the object's last loads match the directory (counts == truth; Repair succeeds iff lost <= capacity, restores exactly the damaged files, makes no file worse). " +
 			"Plus non-interference inside one process: every ordered pair, and every triple whose middle call fails or is interrupted (thorough: every triple), of 54 top-level calls (PAR1/PAR2 x Verify in 6 states, Repair in 4 states x 2 sets, Verify / Repair of a twin set with the same geometry and paths but other contents, Repair and Create interrupted by a torn write, Create in 7 variants incl. other block counts); the reference observation of each call comes from a fresh process, each on a private in-memory directory, run back to back with garbage collection off; the last call's full observation (error, result, every write, final directory) must equal that of the same call made alone. " +
-			"Events: damage(f,w), restore(f), delete/restore recovery file, Verify, Repair, Repair+double-check. The small PAR2 and the PAR1 model are searched twice: on the owned in-memory filesystem and through the exported API on a real directory (rewrites detected by modification time). Every Verify/Repair transition executes the real code on a fresh filesystem built from the state (gopar keeps no state between calls). Invariants on every transition: Verify leaves the state unchanged and gives equal results for equal states; successful Repair => all original, Verify clean, a further Repair in both modes writes nothing and lists nothing; failed Repair => every file holds its previous content or its original; from every reachable state, restoring all recovery files and repairing reaches the original whenever capacity suffices. non-trivial = states in which Repair wrote files or failed",
+			"Events: damage(f,w), restore(f), delete/restore recovery file, Verify, Repair, Repair+double-check. The small PAR2 and the PAR1 model are searched twice: on the owned in-memory filesystem and through the exported API on a real directory (rewrites detected by modification time). Every Verify/Repair transition executes the real code on a fresh filesystem built from the state (gopar keeps no state between calls). Invariants on every transition: Verify leaves the state unchanged and gives equal results for equal states; successful Repair => all original, Verify clean, a further Repair in both modes writes nothing and lists nothing; failed Repair => every file holds its previous content or its original, and no protected content that was findable before the call (under whatever name) is unfindable after it; from every reachable state, restoring all recovery files and repairing reaches the original whenever capacity suffices. non-trivial = states in which Repair wrote files or failed",
 		Assumptions: []string{"state abstraction = exact directory contents (no merging), so no hidden futures are lost", "gopar keeps no state between top-level calls (each builds its decoder from disk)"},
 		NewCase:     func() interface{} { return &c14Case{} },
 		Gen: func(g *core.Gen) {
